@@ -250,8 +250,10 @@ def run(tier):
     for cc, rr in zip(ccases, cres):
         if rr is not None and rr["r"] not in ("ok", "err"):
             canon_not_alive += 1
-            verdict.reject(f"canon-input|{rr['r']}|{S.fp(cc['mathml'])}", f"set_mathml {rr['r']} ({str(rr['v'])[:160]!r}) on {cc['origin']} input {cc['mathml'][:300]}",
-                           {"script": [{"op": "set_rules_dir", "dir": "$RULES"}, {"op": "set_mathml", "mathml": cc["mathml"]}]},
+            pre = [{"op": "set_mathml", "mathml": cc["after"]}] if "after" in cc else []
+            verdict.reject(f"canon-input|{rr['r']}|{S.fp(cc['mathml'], cc.get('after', ''))}", f"set_mathml {rr['r']} ({str(rr['v'])[:160]!r}) on {cc['origin']} input {cc['mathml'][:300]}"
+                           + (f" after {cc['after'][:200]}" if "after" in cc else ""),
+                           {"script": [{"op": "set_rules_dir", "dir": "$RULES"}] + pre + [{"op": "set_mathml", "mathml": cc["mathml"]}]},
                            text=json.dumps({"reason": "set_mathml-" + rr["r"], "origin": cc["origin"], "mathml": cc["mathml"][:500], "msg": str(rr["v"])[:300]}, ensure_ascii=False))
     # cross-subsystem walks judged against the umbrella specification (Session.tla); this property's clauses only
     import sessionwalk
